@@ -93,6 +93,8 @@ def run_property(pid, tier, seed, args):
     for c in contracts:
         registry[c.fn] = c
     mine = [c for c in contracts if pid in c.properties]
+    for c in contracts:
+        c.active_property = pid
     used_lemmas = [l for l in lemmas if pid in getattr(l, 'properties', (pid,)) or True]
 
     reports = []
@@ -184,11 +186,23 @@ def run_property(pid, tier, seed, args):
     lock = N.load_lock(pid)
     # group failed obligations by contract/lemma so that one defect is reported once per obligation
     for i, ob, r in failed:
-        witness = N.find_witness(pid, ob, r, mine, registry, lemmas, tier, seed)
-        kf = N.match_known(known, ob, witness)
+        # a known finding explains a failure only if the obligation is discharged once the finding's witnesses
+        # are excluded from the quantified domain
+        kf = None
+        for k in N.candidates_known(known, ob):
+            extra = N.restriction(k, ob)
+            if extra is None:
+                continue
+            ass, goal = T.prepare(list(ob.assumptions) + extra, ob.goal)
+            rr = solve.discharge_all([solve.Task('r', solve.to_smt2(ass, goal))], timeout_s=timeout)['r']
+            if rr['status'] == 'unsat':
+                kf = k
+                break
         if kf is not None:
-            known_hits.append((kf, ob, witness))
+            known_hits.append((kf, ob, None))
+            results[i] = dict(r, status='known-finding:' + kf['id'])
             continue
+        witness = N.find_witness(pid, ob, r, mine, registry, lemmas, tier, seed)
         rp = N.write_replay(pid, ob, r, witness, tasks[i].smt2)
         if witness is not None:
             lines.append('VIOLATION property=%s replay=%s obligation=%s' % (pid, rp, ob.name))
@@ -201,7 +215,7 @@ def run_property(pid, tier, seed, args):
             log('UNDECIDED property=%s obligation=%s solver=%s' % (pid, ob.name, r.get('reason', r['status'])))
     # native failures that no obligation explains (runtime contract violated on a real input)
     for nf in nat['failures']:
-        kf = N.match_known(known, None, nf)
+        kf = N.match_known_native(known, nf)
         if kf is not None:
             known_hits.append((kf, None, nf))
             continue
@@ -229,6 +243,7 @@ def run_property(pid, tier, seed, args):
 
     # ---- evidence -----------------------------------------------------------------------------------
     discharged = sum(1 for i in range(len(obligations)) if results[i]['status'] == 'unsat')
+    n_known = sum(1 for i in range(len(obligations)) if str(results[i]['status']).startswith('known-finding'))
     per_ob = []
     for i, ob in enumerate(obligations):
         r = results[i]
@@ -245,7 +260,7 @@ def run_property(pid, tier, seed, args):
             continue
         c = rp['contract']
         rep = rp['rep']
-        ent = {'contract': type(c).__name__, 'target': c.target, 'cases': c.cases(),
+        ent = {'contract': type(c).__name__, 'target': c.target, 'cases': c.active_cases(),
                'generation_s': round(rp['gen_s'], 3)}
         if rep is not None and rep.source:
             ent.update(rep.source)
@@ -266,6 +281,7 @@ def run_property(pid, tier, seed, args):
         'property_id': pid, 'tier': tier, 'seed': seed, 'level': level,
         'coverage': {
             'obligations': len(obligations), 'discharged': discharged,
+            'failing_only_because_of_known_findings': n_known,
             'checker_cmd': './check %s --tier %s' % (pid, tier),
             'trusted_base': spec.get('trusted_base', []) + sorted('library model: ' + n for n in all_notes),
             'explanation': spec.get('explanation', ''),
